@@ -79,6 +79,10 @@ func workerMain(args []string) {
 	}
 	runtime.GOMAXPROCS(2)
 	debug.SetMaxStack(512 << 20)
+	if os.Getenv("VERIF_ISOLATED_RETRY") != "" { // confirmation runs of a suspected hang get four times the patience
+		p.StallS *= 4
+		p.CaseTimeoutS *= 2
+	}
 	if os.Getenv("VERIF_SANITIZER") != "" { // instrumented build: 5-15x slower, no stall rule
 		p.CaseTimeoutS *= 8
 		p.StallS = 0
@@ -448,8 +452,14 @@ func runChunk(self string, p *core.Prop, ctx *core.Ctx, a *agg, from, to, sample
 		if begun >= 0 && !done[begun] {
 			// the child died while executing case `begun`
 			key, detail := classifyDeath(out, exit)
-			a.add(&core.Result{I: begun, Verdict: core.Violated, Key: "host-killed:" + key, Nontrivial: false,
-				Detail: detail, Input: caseInput(self, p, ctx, begun)})
+			if harnessOwnDeath(out) {
+				// the harness's own reference evaluator (plain Go recursion) ran out of stack:
+				// nothing was observed about the code under test
+				a.add(&core.Result{I: begun, Verdict: core.Inconclusive, Key: "reference-evaluator-out-of-stack", Detail: core.Trunc(detail, 600)})
+			} else {
+				a.add(&core.Result{I: begun, Verdict: core.Violated, Key: "host-killed:" + key, Nontrivial: false,
+					Detail: detail, Input: caseInput(self, p, ctx, begun)})
+			}
 			next = begun + 1
 		} else if begun >= 0 && begun+1 < to && exit != 0 {
 			next = begun + 1 // watchdog/memory exit after writing its line
@@ -475,7 +485,9 @@ func retryHang(self string, p *core.Prop, ctx *core.Ctx, r *core.Result, seq *at
 		k := seq.Add(1)
 		wdir := filepath.Join(ctx.Work, fmt.Sprintf("w%d", k))
 		os.MkdirAll(wdir, 0755)
+		os.Setenv("VERIF_ISOLATED_RETRY", "1")
 		res, _, out, _ := runChild(self, p, ctx, r.I, r.I+1, 1, filepath.Join(wdir, "journal"), wdir, false)
+		os.Unsetenv("VERIF_ISOLATED_RETRY")
 		os.RemoveAll(wdir)
 		last = lastInputLine(out)
 		if len(res) != 1 {
@@ -602,6 +614,30 @@ func runChild(self string, p *core.Prop, ctx *core.Ctx, from, to, sampleEvery in
 		}
 	}
 	return
+}
+
+// harnessOwnDeath: a Go stack overflow whose innermost frames (the running goroutine's first
+// frames) belong to the harness's reference evaluator, not to the code under test.
+func harnessOwnDeath(out string) bool {
+	if !strings.Contains(out, "goroutine stack exceeds") {
+		return false
+	}
+	k := strings.Index(out, "\ngoroutine ")
+	if k < 0 {
+		return false
+	}
+	rest := out[k+1:]
+	lines := strings.SplitN(rest, "\n", 14)
+	ref, sut := 0, 0
+	for _, l := range lines[1:] {
+		if strings.HasPrefix(l, "zyverif/lang.(*R).") {
+			ref++
+		}
+		if strings.HasPrefix(l, "github.com/glycerine/zygomys/") {
+			sut++
+		}
+	}
+	return ref >= 3 && sut == 0
 }
 
 func classifyDeath(out string, exit int) (key, detail string) {
